@@ -9,6 +9,7 @@ from vpm.build import build_mdp
 from vpm.ref.mdp import RefMDP
 
 PROPERTY_ID = "C03"
+FUZZ = {"props": ["lao"], "quick": [2, 800], "thorough": [8, 30000]}
 RULE = ("MDP specs: discounted (any structure, implicit+explicit absorbing states) and undiscounted proper (every "
         "policy reaches an explicitly absorbing state w.p.1), absorbing initial states, multi-state initial "
         "distributions, stochastic branching, state-dependent action sets x admissible heuristic (constant upper "
